@@ -11,6 +11,7 @@ package main
 //	                         ("eof": the EOF token); result: see c18Err
 //
 //	S <ref-hex> <var-hex> <tree>  statement separation under inserted comments, see c18sep.go
+//	B <src-hex> <markoff>         a break point on the real debugger, see c18bp.go
 //
 // The model side (lean/Ecal/Drivers/C18.lean) lexes the same bytes with the lexer model, and
 // recomputes the true line / column from the byte offsets.
@@ -354,8 +355,10 @@ func init() {
 			}
 			if g.Thorough() {
 				c18SepGen(g, 40, 60000, 60000)
+				c18BreakGen(g, 6000)
 			} else {
 				c18SepGen(g, 8, 3000, 3000)
+				c18BreakGen(g, 600)
 			}
 			for i := 0; i < nRandom; i++ {
 				n := 2 + g.R.Intn(4)
@@ -374,6 +377,9 @@ func init() {
 				return c18Err(f[1], unhx(f[2]), f[3], "")
 			case len(f) == 5 && f[0] == "E":
 				return c18Err(f[1], unhx(f[2]), f[3], f[4])
+			case len(f) == 3 && f[0] == "B":
+				off, _ := strconv.Atoi(f[2])
+				return c18Break(unhx(f[1]), off)
 			case len(f) == 4 && f[0] == "S":
 				return c18Parse(unhx(f[2]))
 			}
